@@ -10,6 +10,7 @@
 package refbundle
 
 import (
+	"math/big"
 	"bytes"
 	"encoding/binary"
 	"errors"
@@ -276,6 +277,12 @@ func parse(b []byte, strict *[]string) (*Parsed, *Reject) {
 					}
 					ie.Variants = v
 					rest = cnt - 1
+					// a non-empty variants-value lists axes ("name;v1;v2, name;v1"): the entry holds
+					// one location per possible key, i.e. as many as the product of the axes' value
+					// counts - computed here without any bound on its size
+					if want, ok := possibleKeys(string(v)); ok && (rest%2 != 0 || want.Cmp(new(big.Int).SetUint64(rest/2)) != 0) {
+						return nil, listed("index entry for %q: variants-value with %s possible keys but %d location fields", u, want.String(), rest)
+					}
 				}
 				if rest == 0 || rest%2 != 0 || (p.Version == "b2" && rest != 2) {
 					return nil, other("index: value array of %d elements", cnt)
@@ -329,6 +336,35 @@ func parse(b []byte, strict *[]string) (*Parsed, *Reject) {
 		}
 	}
 	return p, nil
+}
+
+// possibleKeys returns the number of possible variant keys of a variants-value
+// made of plain tokens only; ok=false (abstain) for anything else.
+func possibleKeys(v string) (*big.Int, bool) {
+	if v == "" {
+		return nil, false
+	}
+	n := big.NewInt(1)
+	for _, axis := range strings.Split(v, ",") {
+		parts := strings.Split(strings.TrimSpace(axis), ";")
+		if len(parts) < 2 {
+			return nil, false
+		}
+		for _, p := range parts {
+			p = strings.TrimSpace(p)
+			if p == "" {
+				return nil, false
+			}
+			for i := 0; i < len(p); i++ {
+				ch := p[i]
+				if !(ch >= 'a' && ch <= 'z' || ch >= 'A' && ch <= 'Z' || ch >= '0' && ch <= '9' || ch == '-' || ch == '_') || (i == 0 && !(ch >= 'a' && ch <= 'z' || ch >= 'A' && ch <= 'Z')) {
+					return nil, false
+				}
+			}
+		}
+		n.Mul(n, big.NewInt(int64(len(parts)-1)))
+	}
+	return n, true
 }
 
 func parseSignatures(sc *cursor) (*Signatures, *Reject) {
